@@ -718,6 +718,21 @@ class C01(Prop):
                     i += 1
                     ops = [dict(op="req", script=[a, b, BENIGN], **rc), dict(op="disp", rid=0, how=d)]
                     yield {"cfg": cfg, "ops": ops, "kind": "exh1"}
+        # 1b. the per-request keywords must survive the retry recursion: a failing first attempt followed by a
+        # redirect reply, with redirect=False (the 3xx comes back, nothing is followed) and with redirect=True
+        redirs = [n for n in NAMES if n[:1] == "3"]
+        for cfg in CONFIGS_QUICK[:5]:
+            for a in NAMES:
+                if a == BENIGN or a in redirs:
+                    continue
+                for b in redirs:
+                    for redirect in (False, True):
+                        rc = dict(REQCFGS[2 + (i % 3)])         # retries >= 1: the first failure may be retried
+                        rc["redirect"] = redirect
+                        d = DISPOSALS[i % len(DISPOSALS)]
+                        i += 1
+                        ops = [dict(op="req", script=[a, b, BENIGN, BENIGN], **rc), dict(op="disp", rid=0, how=d)]
+                        yield {"cfg": cfg, "ops": ops, "kind": "exh-redirect"}
         # 2. the disposal x request-configuration matrix on the plain outcomes
         for cfg in CONFIGS_QUICK:
             for a in ("ok", "ok-close", "ok-untilclose", "ok-big", "short-silent", "short-fin", "stray", "204", "body-intr"):
